@@ -1,11 +1,13 @@
 -------------------------------- MODULE C08 --------------------------------
-EXTENDS ObjModel, Json, IOUtils
+EXTENDS ObjModel, Json, IOUtils, SequencesExt
 
 EnvOr(n, d) == IF n \in DOMAIN IOEnv THEN IOEnv[n] ELSE d
 NatOf == [t \in {ToString(j) : j \in 0..64} |-> CHOOSE j \in 0..64 : ToString(j) = t]
 MaxLen == NatOf[EnvOr("MAXLEN", "2")]
 
+EInit == MInit /\ PrintT(ToJson([on |-> BatteryOn, objs |-> BatteryObjs, glob |-> BatteryGlob]))
 ENext == Len(m_hist) < MaxLen /\ MNext
 EmitAll == m_hist = <<>> \/ PrintT(ToJson([h |-> m_hist]))
 EmitLast == Len(m_hist) < MaxLen \/ PrintT(ToJson([h |-> m_hist]))
+
 =============================================================================
